@@ -490,17 +490,35 @@ func runC18Case(bin, dir string, c c18case, sh *core.Shard) (sig, what, inconclu
 			return "shutdown-failed", fmt.Sprintf("%s: the node exited with %v after %s (log %s)", c, victim.exitErr, exitAfter.Round(time.Millisecond), victim.log), ""
 		}
 		sh.Count("graceful_exits", 1)
-		// at the instant it has exited every survivor (<= 4, all notified) shows it left or absent
-		for _, s := range survivors {
-			v, err := s.viewOf(victim.id)
-			if err != nil {
-				stopOnce()
-				return "", "", "admin api: " + err.Error()
+		// at the instant it has exited every survivor shows it left or absent when all
+		// of them were notified directly (Leave pushes to up to four peers); with more
+		// survivors the rest must follow through gossip within 3 s (60 gossip intervals)
+		allowance := time.Duration(0)
+		if len(survivors) > 4 {
+			allowance = 3 * time.Second
+		}
+		var lagging string
+		okAll := core.WaitUntil(allowance, 20*time.Millisecond, func() bool {
+			lagging = ""
+			for _, s := range survivors {
+				v, err := s.viewOf(victim.id)
+				if err != nil {
+					lagging = "admin api: " + err.Error()
+					return false
+				}
+				if v.Status != "left" && v.Status != "" {
+					lagging = fmt.Sprintf("%s still lists it as %q with %v", s.id, v.Status, v.Endpoints)
+					return false
+				}
 			}
-			if v.Status != "left" && v.Status != "" {
-				stopOnce()
-				return "departure-not-announced", fmt.Sprintf("%s: the node has exited gracefully but %s still lists it as %q with %v", c, s.id, v.Status, v.Endpoints), ""
+			return true
+		})
+		if !okAll {
+			stopOnce()
+			if strings.HasPrefix(lagging, "admin api") {
+				return "", "", lagging
 			}
+			return "departure-not-announced", fmt.Sprintf("%s: the node has exited gracefully but %s after its exit %s", c, allowance, lagging), ""
 		}
 		sh.Count("departure_seen_by_all_at_exit", 1)
 	} else {
@@ -618,7 +636,7 @@ func runC18(sh *core.Shard, a props.Args) {
 	var cases []c18case
 	sizes := []int{3}
 	if a.Thorough() {
-		sizes = []int{3, 4, 5}
+		sizes = []int{3, 4, 5, 6}
 	}
 	for _, n := range sizes {
 		for v := 0; v < n; v++ {
@@ -641,6 +659,12 @@ func runC18(sh *core.Shard, a props.Args) {
 		}
 		fmt.Printf("CASE C18 %d %s (logs %s)\n", i, c, dir)
 		sig, what, inc := runC18Case(bin, dir, c, sh)
+		if inc != "" {
+			// undecided (slowness on a loaded machine): run the case once more
+			fmt.Printf("RETRY C18 %d after inconclusive: %s\n", i, inc)
+			sh.Count("cases_retried_after_inconclusive", 1)
+			sig, what, inc = runC18Case(bin, dir, c, sh)
+		}
 		sh.Eval()
 		// race reports of the server processes (thorough tier)
 		if m, _ := filepath.Glob(filepath.Join(dir, "race-*")); len(m) > 0 {
